@@ -25,6 +25,7 @@ mcvars == <<vars, budget, ncalls, h>>
 MinusOne == -1
 PS4 == {-1, 0, 1, 2}
 PS1 == {1}
+PS12 == {1, 2}
 
 \* contents: id -> length.  c is what the caller's digest names (2 bytes); B is a manifest larger than Threshold
 Big == Threshold + 1
@@ -36,7 +37,10 @@ Huge == MaxAlloc + 1
 R0 == [code |-> 200, loc |-> "none", rf |-> "none", ra |-> 0, rb |-> 0, cl |-> 0, dig |-> "none", halg |-> "", hcont |-> "",
        link |-> "none", ctype |-> "none", mf |-> "none", mv |-> 0, crf |-> "none", crtot |-> 0,
        body |-> "empty", blen |-> 0, bcont |-> "e", bend |-> "eof", items |-> 0,
-       ecode |-> ""]     \* the OCI error code an "errjson" body carries (does not move the machine)
+       ecode |-> "",     \* the OCI error code an "errjson" body carries (does not move the machine)
+       inames |-> "fresh", \* how a listing page names its items: fresh | repeat (the previous page again) | lastfirst (the previous
+                         \* page's last item first) | back (the previous page backwards) | start (the startAfter argument first)
+       auth |-> "none"]  \* WWW-Authenticate: none | bearer | basic         (neither moves the machine)
 Net == [R0 EXCEPT !.code = NetErr]
 
 \* error responses: status x (content type, body class); none of it moves the machine
@@ -149,6 +153,26 @@ OkAlpha(step, first) ==
    responses of EVERY standard error code, under the status that belongs to the code and under one that does
    not; otherwise the server is well behaved, so that every request of an upload is reached. *)
 UpErr == "uperr" \in Families
+(* Family "status": EVERY request of every operation against every status of the classes 1xx-5xx, the ones clients
+   special-case included (1xx informational, 300-308 with and without Location, 401 with WWW-Authenticate, 407, 408,
+   411-413, 416, 417, 421, 425, 426, 428, 429, 431, 451, 501-511), the server being well behaved otherwise.  The
+   harness streams PushBlob's content from a reader net/http cannot rewind, and the Write that overflows the chunk
+   here finds earlier data buffered (its request body is a concatenation, not rewindable either). *)
+StatusFam == "status" \in Families
+(* Family "relist": listings whose consecutive pages repeat items, for page sizes 1 and 2, with and without Link. *)
+Relist == "relist" \in Families
+Probe == UpErr \/ StatusFam \/ Relist
+AllCodes == (100..103) \cup {200, 201, 202, 203, 204, 205, 206, 207, 208, 226} \cup (300..308) \cup (400..418)
+            \cup {421, 422, 423, 424, 425, 426, 428, 429, 431, 451} \cup (500..511)
+StatusErrs(step) ==
+  {[R0 EXCEPT !.code = c] : c \in AllCodes \ OkCodes(step)}
+  \cup {[R0 EXCEPT !.code = c, !.loc = "path"] : c \in 300..308}
+  \cup {[R0 EXCEPT !.code = 401, !.auth = a, !.ctype = "json", !.body = "errjson", !.ecode = "UNAUTHORIZED"] : a \in {"bearer", "basic"}}
+RelistAlpha ==
+  LET cnts == IF cq = 0 THEN {N - 1, N} \ {0} ELSE IF cq = 1 THEN {N - 1, N} \ {0} ELSE {N}
+      nms == IF cq = 0 THEN {"fresh", "start"} ELSE IF cq = 1 THEN {"fresh", "repeat", "lastfirst", "back", "start"} ELSE {"fresh", "repeat", "lastfirst"}
+      lks == IF cq >= 2 THEN {"none"} ELSE {"none", "ok"}
+  IN {[R0 EXCEPT !.body = "list", !.items = i, !.link = lk, !.inames = nm, !.ctype = "json"] : i \in cnts, lk \in lks, nm \in nms}
 ErrTable == {<<"BLOB_UNKNOWN", 404>>, <<"BLOB_UPLOAD_INVALID", 416>>, <<"BLOB_UPLOAD_UNKNOWN", 404>>, <<"DIGEST_INVALID", 400>>,
              <<"MANIFEST_BLOB_UNKNOWN", 404>>, <<"MANIFEST_INVALID", 400>>, <<"MANIFEST_UNKNOWN", 404>>, <<"NAME_INVALID", 400>>,
              <<"NAME_UNKNOWN", 404>>, <<"SIZE_INVALID", 400>>, <<"UNAUTHORIZED", 401>>, <<"DENIED", 403>>, <<"UNSUPPORTED", 400>>,
@@ -157,10 +181,19 @@ CodeErrs == UNION {{[R0 EXCEPT !.code = st, !.ctype = "json", !.body = "errjson"
 Fine(step) ==
   CASE step = "status" -> {[R0 EXCEPT !.code = 204, !.loc = "path", !.rf = "num", !.ra = 0, !.rb = 0]}
     [] step = "mount" -> {[R0 EXCEPT !.code = 201, !.loc = "path"]}
+    [] step = "resolve" -> {WithDig([R0 EXCEPT !.cl = 2], <<"ok", "sha256", "c">>)}
+    [] step = "read" -> {WithBody(WithDig([R0 EXCEPT !.cl = 2], <<"ok", "sha256", "c">>), "c", "eof")}
+                        \cup (IF call.name = "GetTag" THEN {WithBody([R0 EXCEPT !.cl = Big], "B", "eof")} ELSE {})
+    [] step = "head2" -> {WithDig([R0 EXCEPT !.cl = Big], <<"ok", "sha256", "B">>)}
+    [] step = "range" -> {WithBody([R0 EXCEPT !.code = 206, !.cl = 1, !.crf = "ok", !.crtot = 2], "s", "eof")}
+    [] step = "referrers" -> {[R0 EXCEPT !.body = "list", !.items = 1, !.ctype = "json"]}
+    [] step = "page" -> {[R0 EXCEPT !.body = "list", !.items = IF cq = 0 THEN N ELSE 0, !.ctype = "json"]}
     [] OTHER -> {[R0 EXCEPT !.code = c, !.loc = "path"] : c \in OkCodes(step)}
 
 Alpha(step) ==
-  IF UpErr THEN Fine(step) \cup CodeErrs
+  IF Relist THEN RelistAlpha
+  ELSE IF Probe THEN (IF fl.on THEN {[R0 EXCEPT !.code = 404, !.ctype = "json", !.body = "errjson"]}
+                      ELSE Fine(step) \cup (IF UpErr THEN CodeErrs ELSE {}) \cup (IF StatusFam THEN StatusErrs(step) ELSE {}))
   ELSE IF Lite /\ ncalls > 2 THEN OkAlpha(step, FALSE) \cup {[R0 EXCEPT !.code = 404, !.ctype = "json", !.body = "errjson"]}
   ELSE IF fl.on \/ cq > 0 \/ (~Full /\ ncalls > 1) THEN OkAlpha(step, FALSE) \cup {[R0 EXCEPT !.code = 404, !.ctype = "json", !.body = "errjson"], Net}
   ELSE OkAlpha(step, TRUE) \cup Errs(step) \cup Redirs \cup {Net}
@@ -193,6 +226,15 @@ TopCallsOf(Family) ==
          \cup {[Cl("Resume") EXCEPT !.off = x[1], !.idform = x[2], !.hint = 2] :
                   x \in (IF Lite THEN {<<-2, "path">>, <<0, "path">>, <<3, "url">>, <<0, "rel">>, <<0, "bad">>, <<0, "empty">>}
                          ELSE {-2, 0, 3} \X {"path", "url", "rel", "bad", "empty"})}
+    [] Family = "status" ->
+         {[Cl("ResolveBlob") EXCEPT !.ref = "digest"], [Cl("ResolveTag") EXCEPT !.ref = "tag"], [Cl("GetBlob") EXCEPT !.ref = "digest"],
+          [Cl("GetTag") EXCEPT !.ref = "tag"], [Cl("GetBlobRange") EXCEPT !.ref = "digest", !.o0 = 1, !.o1 = 2],
+          [Cl("DeleteBlob") EXCEPT !.ref = "digest"], [Cl("DeleteTag") EXCEPT !.ref = "tag"], Cl("MountBlob"),
+          [Cl("PushManifest") EXCEPT !.ref = "tag", !.csize = 2], [Cl("PushBlob") EXCEPT !.csize = 2],
+          [Cl("Referrers") EXCEPT !.ref = "digest"], Cl("Repositories"), Cl("Tags"),
+          [Cl("PushBlobChunked") EXCEPT !.hint = 1], [Cl("Resume") EXCEPT !.off = MinusOne, !.idform = "path", !.hint = 1]}
+    [] Family = "relist" ->
+         {[Cl("Repositories") EXCEPT !.start = TRUE], Cl("Tags")}
     [] Family = "uperr" ->
          {[Cl("PushBlobChunked") EXCEPT !.hint = 1], [Cl("Resume") EXCEPT !.off = MinusOne, !.idform = "path", !.hint = 1],
           [Cl("PushBlob") EXCEPT !.csize = 2], Cl("MountBlob")}
@@ -200,14 +242,24 @@ TopCallsOf(Family) ==
 
 \* (the page size reaches the requests of the listing operations only: the exports enumerate the other families
 \* for one size and the harness rotates the sizes over them)
-TopCalls == UNION {TopCallsOf(f) : f \in {g \in Families : SizesForAll \/ g = "list" \/ ps = 1}}
+TopCalls == UNION {TopCallsOf(f) : f \in {g \in Families : SizesForAll \/ g \in {"list", "relist"} \/ ps = 1}}
 AllFamilies == {"single", "read", "range", "list", "upload"}
 
 WriterCalls == {[Cl("Write") EXCEPT !.wlen = k] : k \in (IF Lite /\ ncalls > 1 THEN {2} ELSE {1, 2})}
                \cup {[Cl("Commit") EXCEPT !.dg = "want"]} \cup (IF Lite /\ ncalls > 1 THEN {} ELSE {Cl("Close")})
                \cup (IF Lite /\ ncalls > 1 THEN {} ELSE {Cl("Size"), [Cl("Commit") EXCEPT !.dg = "empty"]})
 Menu ==
-  IF UpErr /\ ncalls > 0
+  IF StatusFam /\ ncalls > 0
+  THEN \* one path through the chunked upload: Write(1) buffered, Write(1) overflowing (PATCH of a concatenated body),
+       \* Commit (PUT); and Write(1), Close (PATCH of a single piece)
+       IF rd.open THEN {Cl("ReadAll")}
+       ELSE IF ~w.open \/ call.name \in {"Size", "Commit", "Close"} THEN {}
+       ELSE IF ~out.ok THEN {Cl("Size")}
+       ELSE IF call.name \in {"PushBlobChunked", "Resume"} THEN {[Cl("Write") EXCEPT !.wlen = 1]}
+       ELSE IF w.chunk > 0 THEN {[Cl("Write") EXCEPT !.wlen = 1]} \cup (IF call.name = "Write" /\ ncalls = 2 THEN {Cl("Close")} ELSE {})
+       ELSE {[Cl("Commit") EXCEPT !.dg = "want"]}
+  ELSE IF Relist /\ ncalls > 0 THEN {}
+  ELSE IF UpErr /\ ncalls > 0
   THEN \* after a failed call one more call on the writer (does it still answer?), then the end
        IF ~w.open \/ call.name = "Size" \/ (call.name = "Commit" /\ out.ok) THEN {}
        ELSE IF ~out.ok THEN {Cl("Size")}
@@ -228,7 +280,7 @@ Sd(v) == IF v >= DefaultN - 1 THEN [t |-> (v + 1) \div DefaultN, k |-> v - ((v +
 Sh(v) == IF v >= Huge THEN [t |-> 1, k |-> v - Huge] ELSE [t |-> 0, k |-> v]
 Xr(r) == [code |-> r.code, loc |-> r.loc, rf |-> r.rf, ra |-> r.ra, rb |-> r.rb, cl |-> Sc(r.cl), dig |-> r.dig, halg |-> r.halg,
           hcont |-> r.hcont, link |-> r.link, ctype |-> r.ctype, mf |-> r.mf, mv |-> Sh(r.mv), crf |-> r.crf, crtot |-> r.crtot,
-          body |-> r.body, bcont |-> r.bcont, bend |-> r.bend, items |-> Sd(r.items), ecode |-> r.ecode]
+          body |-> r.body, bcont |-> r.bcont, bend |-> r.bend, items |-> Sd(r.items), ecode |-> r.ecode, inames |-> r.inames, auth |-> r.auth]
 
 MCInit == /\ \E p \in PageSizes : Init0(p)
           /\ budget = MaxResp /\ ncalls = 0 /\ h = <<>>
